@@ -14,6 +14,7 @@ Directives (a line starting with '@'):
 Clause lines may start with a tag comment /*[C07][post.x]*/; the tags are mapped to
 the CBMC obligations generated from that line.
 """
+import os
 import re
 
 
@@ -93,8 +94,24 @@ class Component:
         self.driver_tu = None
 
 
+def expand_includes(path, raw):
+    out = []
+    for ln in raw:
+        m = re.match(r'^@include\s+(\S+)\s*(.*)$', ln.strip())
+        if not m:
+            out.append(ln)
+            continue
+        inc = open(os.path.join(os.path.dirname(path), m.group(1))).read()
+        for kv in m.group(2).split():
+            k, v = kv.split('=', 1)
+            inc = inc.replace('${%s}' % k, v.replace('|', ' '))
+        out.extend(inc.split('\n'))
+    return out
+
+
 def parse_spec(path):
     raw = open(path).read().split('\n')
+    raw = expand_includes(path, raw)
     lines = expand_foreach(raw)
     comp = None
     i = 0
